@@ -82,11 +82,24 @@ func vspecDigest(alg, content string) (string, bool) {
 }
 
 // a = {content length, #algorithms, line normalisation (0/1)}
+// a = {#symbolic content bytes, #algorithms, line normalisation, 0 or 1+index of a concrete content}
 func vh_C13_artifact(a []int)      { vhC13Artifact(a, false) }
 func vh_C13_artifact_twin(a []int) { vhC13Artifact(a, true) }
 
+// concrete file contents: binary data that is not UTF-8 with all three kinds of line ends, a long text, nothing but
+// line ends, NUL bytes (a[3] = 1 + index; the digest is that of exactly these bytes, line ends aside)
+var vhConcreteContents = []string{
+	"\x00\xff\xfe\r\n\x80a\r\xc3\x28\n",
+	"line one\r\nline two\rline three\n\xe2\x82\xac and \xf0\x9f\x98\x80\r\n",
+	"\r\r\n\n\r",
+	"\x00\x00\x00",
+}
+
 func vhC13Artifact(a []int, twin bool) {
 	vhFileContent = vBytes("content", a[0])
+	if len(a) > 3 && a[3] > 0 {
+		vhFileContent = vhConcreteContents[a[3]-1]
+	}
 	vhReadFails = vBool("read.fails")
 	var algs []string
 	for i := 0; i < a[1]; i++ {
